@@ -116,7 +116,7 @@ class RobotsTxtChecker(object):
 
     def _read_content(self, response: Response, original_url_info: URLInfo):
         '''Read response and parse the contents into the pool.'''
-        data = response.body.read(4096)
+        data = response.body.read()
         url_info = original_url_info
 
         try:
